@@ -9,3 +9,13 @@ claim("C05",
       text="For all segment lists (update path + next hops) the per-node, per-edge and total signed durations of the first-order, second-order one-site and two-site schedules are proved in Lean; the model's event sequence is compared exactly with the calls observed through the PYTREENET_VERIF hook; at every observed call the effective Hamiltonian is compared with E^H H E built densely from all other current tensors (so stale cache blocks, wrong leg permutations and wrong child-order handling are failing inputs).",
       note="Trusted: Lean kernel + standard axioms; model lean/Ptn/C05/Model.lean; harness dense embedding; that segment edges enumerate the tree edges is C17 (re-checked per run by the totals oracle); time_evolve itself is C20.",
       ref="DESIGN.md section 5 C05")
+claim("C06",
+      technique="Lean 4 theorems (schedule defined on every sweep >= 2 nodes, centre at step end, palindromic composition of invertible local flows is reversible) + correspondence of sweep end/centre + dense state oracle",
+      text="Completion of the first/second-order schedules for every segment list, the centre at the end of a step, and time-reversibility of a palindromic composition of invertible local flows are proved in Lean (no size bound); the second-order schedule is proved to be such a palindrome. Per run, on random trees incl. roots with a single child: completion, unchanged identifiers/relations/shapes, canonical form at the first sweep node (partial isometries toward it, centre norm = full norm), norm and energy drift <= 1e-8, reversal with -H to 1e-7 on generic full-rank states, saturated two-node exactness to 1e-9.",
+      note="Trusted: Lean kernel + standard axioms; models lean/Ptn/C05/Model.lean, C06/Model.lean; that the library's local updates are invertible flows (gauge independence) and float accuracy are decided by the oracle only (partial).",
+      ref="DESIGN.md section 5 C06/C07")
+claim("C07",
+      technique="Lean 4 theorems (two-site schedule totals, centre at step end, two-node trace = two half steps on the single bond, kept-count bounds) + correspondence + dense state oracle over a truncation grid",
+      text="Schedule-level facts of the two-site sweep are proved in Lean for all segment lists (edge +dt, node -(deg-1)dt, sum dt, final centre, two-node case consists of two half two-site flows which compose to the full step for a one-parameter group, 1 <= kept <= D). Per run: conservation of norm/energy with truncation disabled, two-node exactness for initial bonds 1..4 and mixed dimensions, identifiers/relations kept, canonical at the recorded centre, bond bounds over a grid of truncation settings.",
+      note="Trusted: Lean kernel + standard axioms; models C05/C06/C07; SVD contract and float accuracy by contract; conservation decided by the oracle (partial).",
+      ref="DESIGN.md section 5 C06/C07")
